@@ -9,6 +9,7 @@
    [nstep ... st i = None] for all i = nothing can move any more (maximal execution). *)
 From Coq Require Import List NArith ZArith Lia.
 From SF Require Import Base.Str Net.Model Net.Util Net.Proofs.
+From SF Require Gather.Model Net.Contracts.
 Import ListNotations.
 Local Open Scope string_scope. Local Open Scope list_scope.
 
@@ -56,6 +57,19 @@ Theorem C04_tg_net_terminates :
                       length ch + length ch2 = n) /\
          ((forall i, nstep imap tgspec t_ins tg_fire_spec win specs st i = None) -> st = f /\ length ch = n)).
 Proof. intros win specs. exact (net_terminates imap tgspec t_ins t_nout tg_fire_spec (fun _ => []) win specs tg_contract). Qed.
+
+(* Merge-style steps are not round machines; their termination contract is proved from their own models where
+   one exists.  GatherStep (model of C01): ANY arrival list that contains the termination token of the size port
+   and of the input port — whatever the interleaving — leaves the step terminated, and a terminated step ignores
+   every later arrival (it terminates exactly once; its output list is finite by construction and contains no
+   termination token by typing).  Still ASSUMED for C04: CombinatorStep/LoopCombinatorStep (the Comb models
+   cover combine(), not the step's termination loop), LoopOutputStep beyond C06_loop_output_runs_until_term,
+   ExecuteStep, ScheduleStep, TransferStep, DeployStep, InputInjectorStep, ScatterStep. *)
+Theorem C04_contract_gather : forall depth arr s1 s2,
+  In (Gather.Model.OnTerm Gather.Model.SizeP s1) arr -> In (Gather.Model.OnTerm Gather.Model.ElemP s2) arr ->
+  Gather.Model.gfinal (Gather.Model.gather_run depth arr) <> None /\
+  forall more, Gather.Model.gather_run depth (arr ++ more) = Gather.Model.gather_run depth arr.
+Proof. exact Net.Contracts.gather_terminates. Qed.
 
 (* Statuses.  _reduce_statuses yields FAILED/CANCELLED exactly when one of them is among its arguments; a round
    that reads a FAILED termination token (and no CANCELLED one) ends the step FAILED whatever it has emitted;
@@ -134,6 +148,7 @@ Proof. reflexivity. Qed.
 Print Assumptions C04_net_terminates.
 Print Assumptions C04_contract_transformer_conditional.
 Print Assumptions C04_tg_net_terminates.
+Print Assumptions C04_contract_gather.
 Print Assumptions C04_status_bad_iff.
 Print Assumptions C04_failed_absorbing_round_partial.
 Print Assumptions C04_terminal_status.
